@@ -777,7 +777,12 @@ func (c *Ctx) Forall(vars []*Term, body *Term) *Term {
 
 // Subst replaces variables (by term identity) in t.
 func (c *Ctx) Subst(t *Term, m map[*Term]*Term) *Term {
-	memo := map[*Term]*Term{}
+	return c.SubstMemo(t, m, map[*Term]*Term{})
+}
+
+// SubstMemo is Subst with a caller-provided memo table, so that several formulas sharing subterms are rewritten
+// in one pass over the DAG.
+func (c *Ctx) SubstMemo(t *Term, m map[*Term]*Term, memo map[*Term]*Term) *Term {
 	var rec func(t *Term) *Term
 	rec = func(t *Term) *Term {
 		if r, ok := m[t]; ok {
